@@ -1,15 +1,18 @@
 /-
   Props/C15 — a rejected edit leaves the system untouched.
 
-    reject_noop_partial           from a well-formed state, a call that raises leaves the model state LITERALLY unchanged
-                                  (graph, index allocator, all six registries) — unless it is del_comp(<rail name>) (F20)
-    error_class_partial           … and the exception is ValueError — unless it is add_comp(parent=[]) (F34: IndexError)
-    reject_then_continue_partial  a history with a rejected call runs exactly like the history without it
-    reject_noop_full_fails        F20 witness: del_comp("R") on S → B(rail R) removes B, then raises KeyError
-    error_class_full_fails        F34 witness
-    safe15_nonvacuous             the hypotheses hold along a non-trivial history with seven rejected calls
+    reject_noop           from a well-formed state, a call (any of the six editing / configuration methods, any arguments)
+                          that raises leaves the model state LITERALLY unchanged: graph, index allocator, all six registries
+    error_class           … and the exception is ValueError
+    reject_then_continue  hence a history with a rejected call runs exactly like the history without it
+    reject_nonvacuous     a history with fourteen rejected calls of every cause in the property's list, evaluated in the kernel
+    regression_F20        del_comp(<rail name>) — which used to delete the rail's owner and then raise KeyError — is a
+                          clean ValueError now
+
+  Full strength (after the fixes 8700dfc, 594aa7c, 8226650 in /repo): no hypothesis on the call.  The hypotheses
+  `Legal s` (the state is one the Python data structures can be in) and `WF (abs s)` hold for every reachable state
+  (`C14.legal_run`, `C14.wf_always`), see `reject_noop_reachable`.
 -/
-import SysLoss.Proofs.Reject
 import SysLoss.Props.C14
 
 set_option linter.unusedSectionVars false
@@ -21,36 +24,36 @@ section
 variable {π ν : Type} [CompLike π]
 
 /-- C15 (1) -/
-theorem reject_noop_partial {s : Sys π ν} (hs : Sane s) (hw : s.abs.WF) (op : Op π ν) (hsafe : s.Safe15 op)
-    {e : String} (h : (s.step op).2 = .raised e) : (s.step op).1 = s :=
-  (reject_step hs (wfr_of_wf_abs hs hw) op hsafe e h).1
+theorem reject_noop {s : Sys π ν} (hl : Legal s) (hw : s.abs.WF) (op : Op π ν) {e : String}
+    (h : (s.step op).2 = .raised e) : (s.step op).1 = s :=
+  (reject_step hl (wfr_of_wf_abs hl.sane hw) op e h).1
 
 /-- C15 (3) -/
-theorem error_class_partial {s : Sys π ν} (hs : Sane s) (hw : s.abs.WF) (op : Op π ν) (hsafe : s.Safe15 op)
-    (herr : Sys.SafeErr op) {e : String} (h : (s.step op).2 = .raised e) : e = "ValueError" :=
-  (reject_step hs (wfr_of_wf_abs hs hw) op hsafe e h).2 herr
+theorem error_class {s : Sys π ν} (hl : Legal s) (hw : s.abs.WF) (op : Op π ν) {e : String}
+    (h : (s.step op).2 = .raised e) : e = "ValueError" :=
+  (reject_step hl (wfr_of_wf_abs hl.sane hw) op e h).2
+
+/-- C15 (1) for every state a `System` can reach -/
+theorem reject_noop_reachable {name : String} {src : π} {g r : String} {s : Sys π ν}
+    (h0 : Sys.init name src g r = some s) (hist : List (Op π ν)) (op : Op π ν) {e : String}
+    (h : ((s.run hist).step op).2 = .raised e) : ((s.run hist).step op).1 = s.run hist ∧ e = "ValueError" :=
+  ⟨reject_noop (C14.legal_run (C14.legal_init h0) hist) (C14.wf_always h0 hist) op h,
+   error_class (C14.legal_run (C14.legal_init h0) hist) (C14.wf_always h0 hist) op h⟩
 
 theorem run_append (s : Sys π ν) (a b : List (Op π ν)) : s.run (a ++ b) = (s.run a).run b := by
   induction a generalizing s with
   | nil => rfl
   | cons op a ih => exact ih _
 
-theorem outcomes_append (s : Sys π ν) (a b : List (Op π ν)) :
-    s.outcomes (a ++ b) = s.outcomes a ++ (s.run a).outcomes b := by
-  induction a generalizing s with
-  | nil => rfl
-  | cons op a ih => simp [Sys.outcomes, Sys.run, ih]
-
-/-- C15 (2): if the call `op`, made after the (C14-safe) history `h₁`, raises, then the rest `h₂` of the history
-    runs exactly as if `op` had never been made: same final state, same outcomes -/
-theorem reject_then_continue_partial {s : Sys π ν} (hs : Sane s) (hw : s.abs.WF) (h₁ h₂ : List (Op π ν))
-    (op : Op π ν) (hsafe₁ : s.SafeHist h₁) (hsafe : (s.run h₁).Safe15 op) {e : String}
-    (h : ((s.run h₁).step op).2 = .raised e) :
+/-- C15 (2): if the call `op`, made after the history `h₁`, raises, then the rest `h₂` of the history runs exactly as
+    if `op` had never been made: same final state, same outcomes -/
+theorem reject_then_continue {s : Sys π ν} (hl : Legal s) (hw : s.abs.WF) (h₁ h₂ : List (Op π ν))
+    (op : Op π ν) {e : String} (h : ((s.run h₁).step op).2 = .raised e) :
     s.run (h₁ ++ op :: h₂) = s.run (h₁ ++ h₂) ∧
     (s.run (h₁ ++ [op])).outcomes h₂ = (s.run h₁).outcomes h₂ := by
-  have hs1 := C14.sane_run hs h₁
-  have hw1 := C14.wf_reachable_partial hs hw h₁ hsafe₁
-  have hno := reject_noop_partial hs1 hw1 op hsafe h
+  have hl1 := C14.legal_run hl h₁
+  have hw1 := C14.wf_reachable hl hw h₁
+  have hno := reject_noop hl1 hw1 op h
   constructor
   · rw [run_append, run_append]
     show ((s.run h₁).step op).1.run h₂ = _
@@ -61,64 +64,50 @@ theorem reject_then_continue_partial {s : Sys π ν} (hs : Sane s) (hw : s.abs.W
 
 end
 
-/-! ### the full statements fail for the code as it stands -/
+/-! ### kernel-evaluated instances -/
 
-open C14 (S s0 src conv pload mux s0_sane)
+open C14 (S s0 src conv pload mux s0_legal s0_init)
 
-/-- C15 (1) at full strength -/
-def reject_noop_full : Prop :=
-  ∀ (s : S) (op : Op PComp String) (e : String), Sane s → s.abs.WF → (s.step op).2 = .raised e → (s.step op).1 = s
-
-/-- C15 (3) at full strength -/
-def error_class_full : Prop :=
-  ∀ (s : S) (op : Op PComp String) (e : String), Sane s → s.abs.WF → (s.step op).2 = .raised e → e = "ValueError"
-
-/-- the F20 state: S → B, B's output is rail "R" -/
-def sR : S := s0.run [.addComp (.one "S") (conv "B") "" "R"]
-
-theorem sR_facts : sR.abs.WF ∧ (sR.step (.delComp "R" true)).2 = .raised "KeyError" ∧
-    (sR.step (.delComp "R" true)).1.comps.length = 1 ∧ sR.comps.length = 2 ∧
-    dkeys (sR.step (.delComp "R" true)).1.nodes = ["S", "B"] := by decide
-
-/-- F20: `del_comp("R")` removes node B, then raises -/
-theorem reject_noop_full_fails : ¬ reject_noop_full := by
-  intro h
-  have := h sR (.delComp "R" true) "KeyError" (C14.sane_run s0_sane _) sR_facts.1 sR_facts.2.1
-  have h2 := congrArg (fun s => s.comps.length) this
-  simp only [sR_facts.2.2.1, sR_facts.2.2.2.1] at h2
-  exact absurd h2 (by decide)
-
-/-- F20 and F34: `KeyError` resp. `IndexError` escape -/
-theorem error_class_full_fails : ¬ error_class_full := by
-  intro h
-  have := h s0 (.addComp (.many []) (mux "M") "" "") "IndexError" s0_sane (by decide) (by decide)
-  exact absurd this (by decide)
-
-/-! ### non-vacuity -/
+def rloss (n : String) : PComp := { name := n, kind := .rloss }
 
 def demo : List (Op PComp String) :=
   [ .addComp (.one "S") (conv "B") "g" "rB",
     .addComp (.one "rB") (pload "L") "" "",
+    .addComp (.one "B") (rloss "R") "" "",
     .addComp (.one "L") (pload "X") "" "",                  -- rejected: a load takes no children
+    .addComp (.one "zz") (pload "X") "" "",                 -- rejected: unknown parent
+    .addComp (.many []) (mux "M") "" "",                    -- rejected: empty parent list
+    .addComp (.many ["B", "rB"]) (mux "M") "" "",           -- rejected: the same parent twice
     .addSource (src "B") "" "",                             -- rejected: name in use
     .addSource (src "T") "" "rB",                           -- rejected: rail in use
+    .addSource (conv "T") "" "",                            -- rejected: not a source
     .changeComp "rB" (conv "C") "" "",                      -- rejected: change_comp wants a component name
     .changeComp "B" (src "B") "" "",                        -- rejected: not a source
+    .changeComp "B" (pload "B") "" "",                      -- rejected: a load cannot carry B's children
     .delComp "S" true,                                      -- rejected: last source
+    .delComp "rB" true,                                     -- rejected: a rail is not a component
     .setSysPhases [("only", "1.0")],                        -- rejected: fewer than two phases
     .setCompPhases "L" .bad,                                -- rejected: neither dict nor list
+    .setCompPhases "R" (.conf (.names ["a"])),              -- rejected: loss components have no phases
     .delComp "nosuch" false,                                -- rejected: unknown
     .addComp (.one "B") (pload "L2") "" "" ]
 
-theorem safe15_nonvacuous :
-    s0.SafeHist demo ∧ s0.Safe15Hist demo ∧
-    (s0.outcomes demo).count (.raised "ValueError") = 9 ∧ (s0.run demo).comps.length = 4 := by
-  decide
+theorem reject_nonvacuous :
+    (s0.outcomes demo).count (.raised "ValueError") = 16 ∧ (s0.run demo).comps.length = 5 ∧
+    s0.run demo = s0.run [demo[0], demo[1], demo[2], demo[19]] := by
+  refine ⟨by decide, by decide, ?_⟩
+  rfl
 
 /-- the theorem applies: dropping the first rejected call changes nothing downstream -/
-example : s0.run demo = s0.run (demo.take 2 ++ demo.drop 3) :=
-  (reject_then_continue_partial (e := "ValueError") s0_sane (C14.wf_init_partial C14.s0_init (by decide))
-    (demo.take 2) (demo.drop 3) (.addComp (.one "L") (pload "X") "" "") (by decide) (by decide) (by decide)).1
+example : s0.run demo = s0.run (demo.take 3 ++ demo.drop 4) :=
+  (reject_then_continue (e := "ValueError") s0_legal (C14.wf_init s0_init)
+    (demo.take 3) (demo.drop 4) (.addComp (.one "L") (pload "X") "" "") (by decide)).1
+
+/-- F20 (fixed by 8700dfc): `del_comp("R")` on S → B(rail R) is rejected and nothing is removed -/
+theorem regression_F20 :
+    let s := s0.run [.addComp (.one "S") (conv "B") "" "R"]
+    (s.step (.delComp "R" true)).2 = .raised "ValueError" ∧ (s.step (.delComp "R" true)).1.comps.length = 2 := by
+  decide
 
 end C15
 end SysLoss
